@@ -28,7 +28,7 @@ func init() {
 		ID: "C04", Gen: genC04, Run: runC04, Quick: 3000, Thorough: 600000,
 		Real: []string{"pkg/collector template table (addTemplate, deleteTemplate, getTemplateIEs), decodeTemplateSet, decodeDataSet", "pkg/collector TCP server path (Start, accept loop, per-connection reader) for half of the runs", "pkg/entities, pkg/registry"},
 		Stub: []string{"OS sockets (simnet)", "wall clock (synctest bubble)"},
-		Rule: "histories of up to 40 template / replacing-template / bad-template / data messages from 2-4 clients over 2 observation domains x 3 template ids in a seeded global order; template-table model stepped in the same order; collector's table compared with the model after every message; non-trivial = at least one replacement or invalidation followed by data for that id; distinct = distinct event-log hash",
+		Rule: "histories of up to 40 template / replacing-template / bad-template / data messages from 2-4 clients over 2 observation domains x 3 template ids in a seeded global order; template-table model stepped in the same order; near-identical redefinitions; concurrent members (redefinition during a decode; withdrawal of a domain's last template, by one or two sessions, during a store); a real UDP server with an exactly fitting buffer; collector's table compared with the model after every message; non-trivial = at least one replacement or invalidation followed by data for that id; distinct = distinct event-log hash",
 	})
 }
 
